@@ -1370,7 +1370,16 @@ class Epoch(object):
             if year >= 1972:
                 deltasec += 32.184  # Difference between TT and TAI
                 deltasec += 10.0  # Difference between UTC and TAI in 1972
-                deltasec += Epoch.leap_seconds(year, month)
+                leap = Epoch.leap_seconds(year, month)
+                # In the first seconds of a month the UTC date still belongs to
+                # the previous month: use the leap seconds in force then (the
+                # switch is placed in the middle of an inserted leap second)
+                if (day - 1.0) * DAY2SEC < deltasec + leap - 0.5:
+                    if month > 1:
+                        leap = Epoch.leap_seconds(year, month - 1)
+                    else:
+                        leap = Epoch.leap_seconds(year - 1, 12)
+                deltasec += leap
         else:  # Correction is NOT automatic
             if leap_seconds != 0.0:  # We apply provided leap seconds
                 if year >= 1972:
